@@ -178,6 +178,10 @@ func usedParams(prog *gen.Program, params map[string]paramVal) map[string]bool {
 	return used
 }
 
+// odderSnippets are parameter values no evaluating oracle can read; they
+// must still be inserted verbatim.
+var odderSnippets = []string{"", " ", " 42 ", "$1", "?", "{p:UInt32}", "(select 1)", "a' --", "x\x00y", "\"q\"", "$left", "NULL"}
+
 func compileWith(src string, params map[string]paramVal) (string, error) {
 	var opts *pql.CompileOptions
 	if len(params) > 0 {
@@ -216,6 +220,38 @@ func checkBindings(c *evalCase) (msg string, info evalInfo) {
 		if !used[name] && has {
 			return fmt.Sprintf("parameter %q is not used in any substituted role, yet its snippet %s occurs in the SQL\nsql: %s", name, p.Snippet, sql), info
 		}
+	}
+	// verbatim, whatever the snippet is: compiling with a marker and replacing
+	// the marker gives the same text as compiling with the snippet itself
+	const marker = "__PQL_SNIPPET_MARK_7f3a__"
+	for name := range c.Params {
+		if !used[name] {
+			continue
+		}
+		withSnippet := func(v string) (string, error) {
+			ps := map[string]paramVal{}
+			for n, p := range c.Params {
+				if n == name {
+					p.Snippet = v
+				}
+				ps[n] = p
+			}
+			return compileWith(src, ps)
+		}
+		sqlM, errM := withSnippet(marker)
+		if errM != nil {
+			return fmt.Sprintf("the program compiles with parameter %q = %s but not with another snippet: %v", name, c.Params[name].Snippet, errM), info
+		}
+		for _, v := range odderSnippets {
+			sqlV, errV := withSnippet(v)
+			if errV != nil {
+				return fmt.Sprintf("the program compiles with parameter %q = %s but not with the snippet %q: %v", name, c.Params[name].Snippet, v, errV), info
+			}
+			if want := strings.ReplaceAll(sqlM, marker, v); sqlV != want {
+				return fmt.Sprintf("parameter %q is not inserted verbatim: with the snippet %q the SQL is\n %s\nbut the SQL compiled with a marker, marker replaced, is\n %s", name, v, sqlV, want), info
+			}
+		}
+		break // one parameter per case keeps the cost down
 	}
 	// metamorphic: unused bindings, and lets after the query, change nothing
 	extra := &gen.Program{}
